@@ -24,14 +24,14 @@ RULE = ('each case index = 4 generated routines (vlib/dfgen.py, see C26), compil
         'observed loop-carried or read-after-write dependence; distinct = hash of the generated sources.')
 NSUB = 4
 CASES = {'quick': 125, 'thorough': 2000}
-MIN_NONTRIVIAL = {'quick': 80, 'thorough': 1400}
+MIN_NONTRIVIAL = {'quick': 50, 'thorough': 500}
 ANCHORS = ['loki/analyse/dataflow_analysis.py']
 REQUIRED_REACH = ['loop_carried_dependencies', 'read_after_write_vars', 'visit_Loop', 'visit_Conditional']
 REQUIRED_COUNTERS = {'lcd_carried': 500, 'raw_deps': 200, 'raw_tasks': 100, 'lcd_loops': 200, 'routines_validated': 8}
 ASSUMPTIONS = ['gfortran 12 -O0 -fcheck=all is the reference semantics used to validate the interpreter',
                'generated routines are well-defined by construction',
                'a dependence exists when the very element written is read later without an intervening write to it']
-BUDGET_S = {'quick': 500, 'thorough': 3000}
+BUDGET_S = {'quick': 500, 'thorough': 5400}
 CASE_TIMEOUT_S = 240
 
 CHECKS = ('lcd',)
